@@ -207,6 +207,7 @@ func classifyMapLoops(p *eng.Prog) []mapLoop {
 			case *ast.RangeStmt:
 				if t := info.TypeOf(x.X); t != nil {
 					if _, ok := t.Underlying().(*types.Map); ok {
+						mapOrderProg, mapOrderFn = p, name
 						cl, why := classifyLoop(info, fd, x, list[idx+1:])
 						out = append(out, mapLoop{fn: name, decl: fd, rs: x, class: cl, why: why})
 					}
@@ -592,6 +593,10 @@ func classifyLoop(info *types.Info, fd *eng.FuncDecl, rs *ast.RangeStmt, after [
 		if sortedAfter(info, o, after) {
 			continue
 		}
+		if mapOrderProg != nil && keysOnlyNameMapEntries(mapOrderProg, mapOrderFn, o.Name()) {
+			notes = append(notes, "key list used only to address map entries")
+			continue
+		}
 		bad(rs.Pos(), "slice %s is appended to in map order and not sorted (sort.Strings/Ints/Float64s, slices.Sort) before use", o.Name())
 	}
 	if len(problems) > 0 {
@@ -879,4 +884,173 @@ func ruleCloneComplete(c *eng.Ctx) {
 			c.Check(!(empty && !other), R, key, ci.Pos(), "the destination has room for the copied elements", "copy into a slice made with length 0 copies nothing: the derived value starts with an empty "+"selection although the source had one")
 		}
 	}
+}
+
+var (
+	mapOrderProg *eng.Prog
+	mapOrderFn   string
+)
+
+// keysOnlyNameMapEntries: the slice that function fnName fills in map order (local variable varName) is put into a
+// struct field, and every element read out of that field anywhere in the module is used only to address map entries
+// (as the key of a lookup or update, or as part of a string that is): the order of the slice then decides nothing.
+func keysOnlyNameMapEntries(p *eng.Prog, fnName, varName string) bool {
+	fn := p.Func(fnName)
+	if fn == nil || fn.Blocks == nil {
+		return false
+	}
+	// the appended slice and where it goes
+	var field *eng.FieldRef
+	escapes := false
+	eng.Instrs(fn, false, func(in ssa.Instruction) {
+		call, ok := in.(*ssa.Call)
+		if !ok {
+			return
+		}
+		bi, ok := call.Call.Value.(*ssa.Builtin)
+		if !ok || bi.Name() != "append" {
+			return
+		}
+		vals := []ssa.Value{call}
+		seen := map[ssa.Value]bool{call: true}
+		for i := 0; i < len(vals); i++ {
+			if vals[i].Referrers() == nil {
+				continue
+			}
+			for _, r := range *vals[i].Referrers() {
+				switch x := r.(type) {
+				case *ssa.Phi:
+					if !seen[x] {
+						seen[x] = true
+						vals = append(vals, x)
+					}
+				case *ssa.Store:
+					if x.Val != vals[i] {
+						continue
+					}
+					if fr, ok := eng.AsField(x.Addr); ok {
+						f := fr
+						field = &f
+					} else if _, isAlloc := x.Addr.(*ssa.Alloc); !isAlloc {
+						escapes = true
+					}
+				case *ssa.Return, *ssa.MapUpdate, *ssa.Send:
+					escapes = true
+				case *ssa.Call:
+					if b2, ok := x.Call.Value.(*ssa.Builtin); ok && (b2.Name() == "append" || b2.Name() == "len" || b2.Name() == "cap") {
+						if b2.Name() == "append" && !seen[x] {
+							seen[x] = true
+							vals = append(vals, x)
+						}
+						continue
+					}
+					escapes = true
+				}
+			}
+		}
+	})
+	_ = varName
+	if field == nil || escapes {
+		return false
+	}
+	// every element read from that field
+	var keyOnly func(v ssa.Value, depth int, seen map[ssa.Value]bool) bool
+	keyOnly = func(v ssa.Value, depth int, seen map[ssa.Value]bool) bool {
+		if seen[v] {
+			return true
+		}
+		seen[v] = true
+		if depth > 6 || v.Referrers() == nil {
+			return false
+		}
+		for _, r := range *v.Referrers() {
+			switch x := r.(type) {
+			case *ssa.DebugRef:
+			case *ssa.Lookup:
+				if x.Index != v {
+					return false
+				}
+			case *ssa.MapUpdate:
+				if x.Key != v {
+					return false
+				}
+			case *ssa.BinOp:
+				if x.Op == token.ADD {
+					if !keyOnly(x, depth+1, seen) {
+						return false
+					}
+				} // comparisons decide nothing about order
+			case *ssa.Phi:
+				if !keyOnly(x, depth+1, seen) {
+					return false
+				}
+			case *ssa.Call:
+				cal := eng.StaticCallee(x)
+				if cal == nil || !eng.InModule(cal) || cal.Blocks == nil {
+					return false
+				}
+				for ai, a := range eng.ArgsWithRecv(x) {
+					if a == v && ai < len(cal.Params) {
+						if !keyOnly(cal.Params[ai], depth+1, seen) {
+							return false
+						}
+					}
+				}
+			case *ssa.Store:
+				// parked in a field of the same kind of record (the prefix of the next level): its readers are held to the same
+				fr, ok := eng.AsField(x.Addr)
+				if !ok || x.Val != v {
+					return false
+				}
+				okAll := true
+				for _, g := range p.ModuleFuncs() {
+					if g.Pkg != fn.Pkg {
+						continue
+					}
+					eng.Instrs(g, true, func(i2 ssa.Instruction) {
+						if u, ok := i2.(*ssa.UnOp); ok && u.Op == token.MUL {
+							if f2, ok := eng.AsField(u.X); ok && f2.Field == fr.Field && f2.Struct == fr.Struct {
+								if !keyOnly(u, depth+1, seen) {
+									okAll = false
+								}
+							}
+						}
+					})
+				}
+				if !okAll {
+					return false
+				}
+			default:
+				return false
+			}
+		}
+		return true
+	}
+	n, all := 0, true
+	for _, g := range p.ModuleFuncs() {
+		if g.Pkg != fn.Pkg {
+			continue
+		}
+		eng.Instrs(g, true, func(in ssa.Instruction) {
+			ia, ok := in.(*ssa.IndexAddr)
+			if !ok {
+				return
+			}
+			fr, ok := eng.LoadOfField(ia.X)
+			if !ok || fr.Field != field.Field || fr.Struct != field.Struct {
+				return
+			}
+			for _, r := range *ia.Referrers() {
+				if u, ok := r.(*ssa.UnOp); ok && u.Op == token.MUL {
+					n++
+					if !keyOnly(u, 0, map[ssa.Value]bool{}) {
+						all = false
+					}
+				} else {
+					all = false
+				}
+			}
+		})
+	}
+	return n > 0 && all
 }
